@@ -1,6 +1,6 @@
 (* C14 — proofs about Model/RelayNeg.v *)
 From Coq Require Import List NArith ZArith Bool Lia.
-From Trzsz Require Import Base.Bytes Gen.Consts Model.RelayNeg.
+From Trzsz Require Import Base.Bytes Gen.Consts Model.Detector Model.RelayNeg Proofs.Detector.
 Import ListNotations.
 Open Scope N_scope.
 
@@ -890,3 +890,67 @@ Qed.
    models stay executable for the search engines of C13) *)
 Lemma reset_guard_src_ok : relayneg_reset_guard_is_cas = true.
 Proof. reflexivity. Qed.
+
+(* ------------------------------------------------------------------------------- *)
+(* 8. The relay's detector in stand-by (section 3c of the model) *)
+
+(* newTrzszDetector(true, true); the tunnel argument of detectTrzsz is "a tunnel connector is
+   configured" (value 0), NOT the tunnelConnected flag (false whenever the relay stands by) *)
+Lemma relay_detector_src_ok :
+  relayneg_detector_relay = true /\ relayneg_detector_tmux = true /\ relayneg_detect_tunnel_arg = 0.
+Proof. repeat split; reflexivity. Qed.
+
+Lemma detect_tunnel_arg_ok : forall has_connector flag, rn_detect_tunnel_arg has_connector flag = has_connector.
+Proof. intros. unfold rn_detect_tunnel_arg. destruct relay_detector_src_ok as (_ & _ & H). rewrite H. reflexivity. Qed.
+
+(* "r.tunnelConnector.Load() == nil || r.trigger.tunnelPort == 0" and the exchange of
+   ":<id>:<port>" for ":<id>:<relay port>" - not of ":<port>" alone *)
+Lemma listen_src_ok :
+  relayneg_listen_guard_src =
+  [114;46;116;117;110;110;101;108;67;111;110;110;101;99;116;111;114;46;76;111;97;100;40;41;32;61;61;32;110;105;
+   108;32;124;124;32;114;46;116;114;105;103;103;101;114;46;116;117;110;110;101;108;80;111;114;116;32;61;61;32;48] /\
+  relayneg_port_rewrite_src =
+  [98;121;116;101;115;46;82;101;112;108;97;99;101;65;108;108;40;98;117;102;44;32;91;93;98;121;116;101;40;102;
+   109;116;46;83;112;114;105;110;116;102;40;34;58;37;115;58;37;100;34;44;32;114;46;116;114;105;103;103;101;114;
+   46;117;110;105;113;117;101;73;68;44;32;114;46;116;114;105;103;103;101;114;46;116;117;110;110;101;108;80;111;114;
+   116;41;41;44;32;91;93;98;121;116;101;40;102;109;116;46;83;112;114;105;110;116;102;40;34;58;37;115;58;37;100;
+   34;44;32;114;46;116;114;105;103;103;101;114;46;117;110;105;113;117;101;73;68;44;32;114;46;116;117;110;110;101;
+   108;82;101;108;97;121;80;111;114;116;41;41;41].
+Proof. split; reflexivity. Qed.
+
+Lemma relay_detector_flags : d_relay rn_relay_detector = true /\ d_tmux rn_relay_detector = true.
+Proof. split; reflexivity. Qed.
+
+(* THEOREM: a complete trigger after arbitrary other output in one read of a relay that stands
+   by - whatever the framing: none, or tmux control mode (`%output %N ` / `%extended-output %N A : `)
+   provided the relay has a tunnel connector and the trigger carries a port - is TAKEN: the
+   relay starts the advertised transfer (mode, version, id, port), whatever its tunnelConnected
+   flag is, and forwards the re-tagged buffer with "#R" behind the trigger and (tunnel) its own
+   port in place of the server's in the trigger's ":<id>:<port>" and nowhere else.
+   Premises as in C06_fires, for any relay detector state (any id table). *)
+Theorem relay_trigger_taken : forall has_connector flag d relay_port buf pre m txt tail ver,
+  d_relay d = true -> d_tmux d = true ->
+  let out := rewrite_trigger buf in
+  (nlen buf <? Consts.det_min_len) = false ->
+  last_index_of marker buf <> None ->
+  out = pre ++ txt ++ tail ->
+  trigger_text m txt -> greedy_end m tail ->
+  last_index_of marker (txt ++ tail) = Some O ->
+  (find_tmux out = None \/ (has_connector = true /\ m_port m <> None)) ->
+  finished (skipn (N.to_nat Consts.det_finished_offset) (txt ++ tail)) = false ->
+  parse_version (m_ver m) = Some ver ->
+  (dedup_eligible false (id_value (m_id m)) = true -> map_find (d_map d) (id_value (m_id m)) = None) ->
+  let t := {| t_mode := m_mode m; t_version := ver; t_id := id_value (m_id m);
+              t_win := win_server (id_value (m_id m)); t_port := port_value (m_port m);
+              t_prefix := match find_tmux out with Some p => p | None => [] end |} in
+  rn_stand_by_read has_connector flag d relay_port buf =
+    (rn_port_rewrite has_connector relay_port t (add_relay_suffix out (length pre)), Some t,
+     set_map d (snd (is_repeated false (d_map d) (id_value (m_id m))))).
+Proof.
+  intros has_connector flag d relay_port buf pre m txt tail ver Hr Ht out Hlen Hmk Hout Htxt Hgr Hlast Htm Hfin Hver Hfresh t.
+  unfold rn_stand_by_read. rewrite detect_tunnel_arg_ok.
+  pose proof (fires_core false d has_connector buf pre m txt tail ver) as F.
+  cbn zeta in F. rewrite Hr, Ht in F. cbn [andb] in F.
+  specialize (F Hlen Hmk Hout Htxt Hgr Hlast Htm Hfin Hver Hfresh).
+  rewrite F. reflexivity.
+Qed.
